@@ -463,3 +463,28 @@ Print Assumptions c06_recovery_entered_while_receiving.
 Print Assumptions c06_fast_retx_poll_strict.
 Print Assumptions c06_fast_retx_ok_guarded_step.
 Print Assumptions c06_fast_retx_ok_g_every_trace.
+
+(* ---- the guards of the step theorems are met by reachable steps: five RTO back-offs then the cap
+   (MaxRetransmissionsReached) on one trace; three duplicate ACKs and a fast retransmission on another *)
+Theorem c06_backoff_cap_nonvacuous :
+  exists w cfg ops,
+    vconfig_ok cfg = true /\ Forall op_msg_ok ops /\
+    Z.of_nat (length (filter rto_fired (wtrace w cfg ops))) = 5 /\
+    existsb gave_up (wtrace w cfg ops) = true /\
+    forallb (c06_backoff_ok cfg) (wtrace w cfg ops) = true /\
+    forallb (c06_cap_ok cfg) (wtrace w cfg ops) = true /\
+    c06_emitted_live_ok_g cfg (wtrace w cfg ops) = true /\
+    c06_no_resend_acked_g cfg (wtrace w cfg ops) = true /\
+    c06_joint_ok cfg (wtrace w cfg ops) = true.
+Proof. exact backoff_cap_nonvacuous. Qed.
+
+Theorem c06_fast_retx_nonvacuous :
+  exists w cfg ops,
+    vconfig_ok cfg = true /\ Forall op_msg_ok ops /\
+    existsb entered_recovery (wtrace w cfg ops) = true /\
+    c06_fast_retx_ok_g cfg (wtrace w cfg ops) = true /\
+    forallb (c06_fast_retx_ok cfg) (wtrace w cfg ops) = true.
+Proof. exact fast_retx_nonvacuous. Qed.
+
+Print Assumptions c06_backoff_cap_nonvacuous.
+Print Assumptions c06_fast_retx_nonvacuous.
